@@ -320,6 +320,12 @@ func (t *Header) Decode(d *Decoder) error {
 	}
 
 	epochMarkPointerFlag, err := d.ReadPointerFlag()
+	if err != nil {
+		return err
+	}
+	if epochMarkPointerFlag > 1 {
+		return fmt.Errorf("invalid EpochMark option discriminator %d", epochMarkPointerFlag)
+	}
 	epochMarkPointerIsNil := epochMarkPointerFlag == 0
 	if epochMarkPointerIsNil {
 		cLog(Yellow, "EpochMark is nil")
@@ -335,6 +341,12 @@ func (t *Header) Decode(d *Decoder) error {
 	}
 
 	ticketsMarkPointerFlag, err := d.ReadPointerFlag()
+	if err != nil {
+		return err
+	}
+	if ticketsMarkPointerFlag > 1 {
+		return fmt.Errorf("invalid TicketsMark option discriminator %d", ticketsMarkPointerFlag)
+	}
 	ticketsMarkPointerIsNil := ticketsMarkPointerFlag == 0
 	if ticketsMarkPointerIsNil {
 		cLog(Yellow, "TicketsMark is nil")
